@@ -22,9 +22,8 @@ from pathlib import Path
 import networkx as nx
 
 from loki import Scheduler, SchedulerConfig, Transformation, ProcessingStrategy
-from loki.batch import ExternalItem, FileItem, ProcedureItem, ModuleItem
+from loki.batch import ExternalItem, FileItem, ProcedureItem
 from loki.frontend import REGEX, FP
-from loki.ir import nodes as ir, FindNodes
 from loki.transformations.build_system import (FileWriteTransformation, DependencyTransformation,
                                                ModuleWrapTransformation)
 from loki.transformations.dependency import DuplicateKernel, RemoveKernel
@@ -590,6 +589,16 @@ def check_run(res, plan, ops, cfg, link=False):
         if ext:
             probs.append((f'{mode} run, after operation {i} {ops[i]}: graph contains unresolved items {ext[:3]}', 'external'))
     for i, o in enumerate(ops):
+        if o[0] == 'dup' and not o[2] and i < len(res['trace']):
+            # the documented naming: <scope><duplicate_module_suffix or duplicate_suffix>#<kernel><duplicate_suffix>
+            before = res['trace'][i - 1] if i else res['init']
+            for n in before['items']:
+                sc, _, loc = n.partition('#')
+                if loc == o[1] and n in before['procs'] and any(e[1] == n for e in before['deps']):
+                    want_name = f"{sc + (o[4] or o[3]) if sc else ''}#{loc}{o[3]}"
+                    if want_name.lower() not in res['trace'][i]['items']:
+                        probs.append((f'{mode} run: after operation {i} {o} the graph has no item {want_name.lower()} '
+                                      f"(items {res['trace'][i]['items']})", 'dupname'))
         if o[0] == 'rem':
             for j in range(i + 1, len(res['trace'])):
                 back = [e for e in res['trace'][j]['deps'] if e[1].split('#')[-1] == o[1]]
@@ -700,7 +709,10 @@ def driver_names(cfg):
 
 
 def classify(proj, cfg, ops, plan):
-    """the known-finding classes a request falls in (decidable on the request; Lean: Known… in Props/C25.lean)"""
+    """the known-finding classes a request falls in, decidable on the request.  Lean mirrors: the conjuncts of
+    `Covered` in C25/Model.lean (splitLayout ~ shared-file, noDriverCallee ~ driver-callee, depLast ~ dep-not-last, isSub ~
+    dup-subgraph, noDupAfterRem ~ plan-removal-not-inherited); the other classes lie inside `Covered`: there the model follows
+    the defect (correspondence) and the theorem needs `LocalClosed` of the result, which fails (Findings/C25.lean)"""
     home = c22.home_of(proj)
     drivers = driver_names(cfg)
     cls = []
@@ -708,8 +720,6 @@ def classify(proj, cfg, ops, plan):
     kinds = [o[0] for o in ops]
     if not split_layout(proj) and any(k in ('dup', 'wrap', 'dep') for k in kinds):
         cls.append('shared-file')
-    if any(o[0] == 'dup' and (o[3] != o[3].lower() or (o[4] or '') != (o[4] or '').lower()) for o in ops):
-        cls.append('duplicate-suffix-case')
     mixed = any(home[d] is not None and any(home[r['name']] == home[d] and r['name'] not in drivers
                                             for r in proj['routines']) for d in drivers)
     if not plan and (drivers & called or mixed) and any(k in ('wrap', 'dep') for k in kinds):
@@ -717,7 +727,7 @@ def classify(proj, cfg, ops, plan):
     kvar = any(m in {home[x['name']] for x in proj['routines']} for r in proj['routines'] for m in r['usev'])
     if not plan and kvar and 'dep' in kinds:
         cls.append('retained-module')
-    if not plan and kinds.count('dep') > 1 or ('dep' in kinds[:-1]):
+    if not plan and 'dep' in kinds[:-1]:
         cls.append('dep-not-last')
     free_kernel = any(home[r['name']] is None and r['name'] not in drivers and r['name'] in called
                       for r in proj['routines'])
@@ -742,16 +752,17 @@ def classify(proj, cfg, ops, plan):
     for i, o in enumerate(ops):
         if o[0] == 'dup' and home.get(o[1]) is None and 'wrap' in kinds[i + 1:] and not plan:
             cls.append('dup-free-then-wrap')
-        if o[0] == 'rem' and home.get(o[1]) is not None and 'dep' in kinds[i + 1:] and not plan:
+        if o[0] == 'rem' and not plan and ((home.get(o[1]) is not None and 'dep' in kinds[i + 1:]) or
+                                            (home.get(o[1]) is None and proj['cinc'] and 'wrap' in kinds[:i])):
             cls.append('removed-import-left')
         if o[0] == 'dup' and o[2]:
             cls.append('dup-subgraph')
-        if o[0] == 'rem' and 'dup' in kinds[i + 1:]:
+        if o[0] == 'rem' and 'dup' in kinds[i + 1:] and plan:
             cls.append('plan-removal-not-inherited')
     return list(dict.fromkeys(cls))
 
 
-CLASSES = ['shared-file', 'duplicate-suffix-case', 'driver-callee', 'retained-module', 'dep-not-last',
+CLASSES = ['shared-file', 'driver-callee', 'retained-module', 'dep-not-last',
            'wrap-without-interface', 'inactive-sibling', 'dup-free-then-wrap', 'removed-import-left', 'dup-subgraph', 'plan-removal-not-inherited']
 
 
@@ -827,7 +838,7 @@ class C25(Prop):
     link = False
 
     def gen(self, rng, tier):
-        nproj = {'quick': 22, 'thorough': 260, 'search': 60}.get(tier, 22)
+        nproj = {'quick': 14, 'thorough': 110, 'search': 40}.get(tier, 22)
         self.link = tier == 'thorough'
         for _ in range(nproj):
             proj = gen_project(rng)
